@@ -225,7 +225,7 @@ fn small_amount(r: &mut Rng) -> u64 {
 fn gen_leaf_batch(r: &mut Rng, k: usize, n: usize, u: &Universe) -> (Vec<Leaf>, &'static str) {
     gen_leaf_batch_with(r, k, n, u, None)
 }
-/// `force`: the feature branch to take (0..=12, anything above = plain compatible batch)
+/// `force`: the feature branch to take (0..=17, anything above = plain compatible batch)
 fn gen_leaf_batch_with(r: &mut Rng, k: usize, n: usize, u: &Universe, force: Option<u64>) -> (Vec<Leaf>, &'static str) {
     let padding = k < n;
     let asset = if !padding && r.chance(1, 3) { *r.pick(&[1u64, 7, (1 << 32) - 1, 1 << 32, P - 1]) } else { 0 };
@@ -246,7 +246,7 @@ fn gen_leaf_batch_with(r: &mut Rng, k: usize, n: usize, u: &Universe, force: Opt
     }
     let i = r.below(k as u64) as usize;
     let j = if k >= 2 { (i + 1 + r.below(k as u64 - 1) as usize) % k } else { i };
-    let branch = r.below(16);
+    let branch = r.below(22);
     match force.unwrap_or(branch) {
         0 => {
             ls[i][0] = asset + 1;
@@ -339,6 +339,27 @@ fn gen_leaf_batch_with(r: &mut Rng, k: usize, n: usize, u: &Universe, force: Opt
         12 => {
             ls[i][16..20].copy_from_slice(&[0, 0, 0, 1]);
             tag = "block-hash-one-limb";
+        }
+        13 | 14 | 15 | 16 => {
+            // two real leaves whose block hashes differ in exactly ONE limb (every limb in turn)
+            let q = (force.unwrap_or(branch) - 13) as usize;
+            ls[i][16 + q] = (ls[i][16 + q] + 1) % P;
+            tag = match q {
+                0 => "block-differs-in-limb0-only",
+                1 => "block-differs-in-limb1-only",
+                2 => "block-differs-in-limb2-only",
+                _ => "block-differs-in-limb3-only",
+            };
+        }
+        17 => {
+            // nullifiers equal in three limbs: NOT a replay
+            let q = r.below(4) as usize;
+            let c: [u64; 4] = ls[i][4..8].try_into().unwrap();
+            ls[j][4..8].copy_from_slice(&c);
+            if i != j {
+                ls[j][4 + q] = (ls[j][4 + q] + 1) % P;
+            }
+            tag = "nullifiers-differ-in-one-limb-only";
         }
         _ => {}
     }
@@ -512,18 +533,18 @@ fn c14_private(out: &mut Out, rng: &mut Rng, thorough: bool, t0: std::time::Inst
     let mut plan: Vec<(usize, usize, Option<u64>, u64)> = vec![];
     // the fixed part: every feature branch once through the real commit at n = 2, the count / shape / cryptography classes,
     // and padding (k < n) with one and two real proofs
-    for f in 0..=12u64 {
+    for f in 0..=17u64 {
         plan.push((2, 2, Some(f), 99));
     }
     for m in [99u64, 0, 1, 2, 3] {
-        plan.push((2, 1, Some(15), m));
+        plan.push((2, 1, Some(99), m));
     }
     plan.push((2, 0, None, 99));
-    plan.push((2, 3, Some(15), 99));
-    for (k, f, m) in [(1usize, 15u64, 99u64), (1, 6, 99), (1, 5, 99), (1, 15, 0)] {
+    plan.push((2, 3, Some(99), 99));
+    for (k, f, m) in [(1usize, 99u64, 99u64), (1, 6, 99), (1, 5, 99), (1, 99, 0)] {
         plan.push((1, k, Some(f), m));
     }
-    for (k, f) in [(2usize, 15u64), (2, 3), (3, 7)] {
+    for (k, f) in [(2usize, 99u64), (2, 3), (3, 7)] {
         if sizes.contains(&3) {
             plan.push((3, k, Some(f), 99));
         }
@@ -807,7 +828,7 @@ fn c14_public(out: &mut Out, rng: &mut Rng, thorough: bool, t0: std::time::Insta
     let acct = [5u64, 6, 7, 8];
     let mk = |asset: u64, fee: u64, bh: [u64; 4], null: u64| leaf(asset, 100, 0, fee, [null, 0, 0, 0], acct, [0; 4], bh, 3);
     // genuine inner proofs through the real private-batch prover (n = 1, so a non-native asset needs no padding)
-    let specs: Vec<(&str, Leaf)> = vec![("A", mk(0, 10, bh1, 1)), ("A2", mk(0, 10, bh1, 2)), ("B-other-block", mk(0, 10, bh2, 3)), ("C-other-asset", mk(7, 10, bh1, 4)), ("D-other-fee", mk(0, 11, bh1, 5))];
+    let specs: Vec<(&str, Leaf)> = vec![("A", mk(0, 10, bh1, 1)), ("A2", mk(0, 10, bh1, 2)), ("B-other-block", mk(0, 10, bh2, 3)), ("C-other-asset", mk(7, 10, bh1, 4)), ("D-other-fee", mk(0, 11, bh1, 5)), ("E-block-limb3-only", mk(0, 10, [9, 0, 0, 1], 6))];
     let made: Vec<Result<Proof, String>> = specs.par_iter().map(|(_, l)| inner.real_inner(&[*l])).collect();
     if made.iter().any(|r| r.is_err()) {
         // the real private-batch prover refused (or failed to prove) a single compatible real leaf: report it as what it is
@@ -843,6 +864,7 @@ fn c14_public(out: &mut Out, rng: &mut Rng, thorough: bool, t0: std::time::Insta
     let b = ok(&reals[2]);
     let c = ok(&reals[3]);
     let d = ok(&reals[4]);
+    let e = ok(&reals[5]);
     let t = ok(&template);
     let t2 = ok(&odd_dummy);
     // the catalogue every vector is drawn from
@@ -867,6 +889,7 @@ fn c14_public(out: &mut Out, rng: &mut Rng, thorough: bool, t0: std::time::Insta
         ("one-real".into(), vec![a.clone()]),
         ("two-real".into(), vec![a.clone(), a2.clone()]),
         ("blocks-differ".into(), vec![a.clone(), b.clone()]),
+        ("blocks-differ-in-limb3-only".into(), vec![a.clone(), e.clone()]),
         ("assets-differ".into(), vec![a.clone(), c.clone()]),
         ("fees-differ".into(), vec![a.clone(), d.clone()]),
         ("only-template".into(), vec![t.clone()]),
